@@ -250,7 +250,9 @@ func (w *World) enter(fs *FuncSpec, got []reflect.Value) (outs []reflect.Value, 
 
 // Realize builds (and remembers) the argmapper.Func for a spec.
 func (w *World) Realize(fs *FuncSpec, defaults ...argmapper.Arg) (*argmapper.Func, error) {
-	var opts []argmapper.Arg
+	// spare capacity on purpose: a library that appended call options to the
+	// stored default slice would write into this shared backing array
+	opts := make([]argmapper.Arg, 0, len(defaults)+8)
 	if fs.Once {
 		opts = append(opts, argmapper.FuncOnce())
 	}
@@ -358,6 +360,12 @@ func (w *World) realizeBuilt(fs *FuncSpec, opts []argmapper.Arg) (*argmapper.Fun
 			}
 			if v == nil {
 				panic(fmt.Sprintf("harness: built output %s not found in set", l))
+			}
+			if IsIface(l.Type) && (l.Dyn+fs.ID)%2 == 0 {
+				// a concrete value stored for an interface-typed output (what
+				// `v.Value = reflect.ValueOf(impl)` does in user code)
+				v.Value = vals[i]
+				continue
 			}
 			slot := reflect.New(Types[l.Type]).Elem()
 			slot.Set(vals[i])
